@@ -68,6 +68,10 @@ type ResourceEvent struct {
 	Version uint
 	// Update flags if the event causes a version bump. Set by eg. add/remove/change.
 	Update bool
+	// Model and Collection hold the state resulting from an update event, for
+	// subscribers to keep their snapshot in sync with their version.
+	Model      *Model
+	Collection *Collection
 }
 
 // NewCache creates a new Cache instance
